@@ -11,6 +11,7 @@
 //   Z <id> <hex sheet> <hex source> <setIndent:-|n> <setOutputEncoding:-|name> <setOmitMETATag:-|0|1> <setEscapeURLs:-|0|1> [<name>=<hex file>]*
 //        whole transformation through XalanTransformer with the API overrides; extra files are served as
 //        file:///vmem/<name> (stylesheet = file:///vmem/main.xsl)   Output: "<id> ok:<hex bytes>" | "<id> err:<status>:<hex message>"
+//   R <id> <hex bytes>      re-parse only (Xerces SAX2)                    Output: "<id> <re-parse>"
 //   event ::= S <u:name> <n> (<u:attrname> <u:attrvalue>){n} | E <u:name> | T <u:text> | C <u:text> | R <u:text> (charactersRaw)
 //           | M <u:text> | P <u:target> <u:data>
 //   re-parse = the bytes parsed by Xerces SAX2, printed as an event script with adjacent text coalesced, or PARSEERR:<msg>
@@ -315,6 +316,8 @@ int main(int argc, char** argv)
             std::cout << id << ' ' << run_listener(m, evs, bytes) << std::endl;
         } else if (t[0] == "Z") {
             transform_case(t);
+        } else if (t[0] == "R") {
+            std::cout << id << ' ' << reparse(unhex(t[2])) << std::endl;
         } else {
             std::cout << id << " badscript" << std::endl;
         }
